@@ -99,4 +99,26 @@ theorem fill_none {F} (d : Array F) (a b : Nat) (c : F) (h1 : a < b) (h2 : d.siz
 theorem enumerate_length {F} (d : Array F) : (enumerate d).length = d.size := by
   simp [enumerate]
 
+theorem usub_eq (a b : Nat) (h : b ≤ a) : usub a b = some (a - b) := by
+  simp [usub, h]
+
+theorem umod_eq (a b : Nat) (h : 0 < b) : umod a b = some (a % b) := by
+  simp [umod]; omega
+
+theorem udiv_eq (a b : Nat) (h : 0 < b) : udiv a b = some (a / b) := by
+  simp [udiv]; omega
+
+/-- Symbolic execution of a generated `next`/`reset` body that is *independent of the syntactic
+    shape of its tests*: the checked operations are rewritten to their values (side conditions by
+    `omega`), every `if` of the goal is split, and the loop repeats until nothing moves.  The
+    surviving goals are either contradictory (closed by `omega`) or equalities of normal forms.
+    A harmless rewrite of a test (`a + 1 < p` into `a + 1 != p`, swapped branches, …) therefore
+    leaves the proofs that use it intact. -/
+macro "rs_exec" : tactic => `(tactic|
+  repeat' (first
+    | split
+    | (simp (disch := omega) only [index_eq, setIndex_eq, uadd_eq, usub_eq, umod_eq, udiv_eq,
+        Option.bind_eq_bind, Option.bind_some, Option.pure_def, decide_eq_true_eq,
+        decide_eq_false_iff_not, Bool.not_eq_true', Bool.and_eq_true, Bool.or_eq_true] at *)))
+
 end TaRs.Rs
